@@ -72,8 +72,8 @@ META2 = {
         engine=E1,
         explanation="k_buf.c: the real parse_write_args -> parse_buffer_hexadecimal / parse_buffer_string on a symbolic text, variable of symbolic data_size 1..8 embedded between canaries, symbolic access, "
                     "callback result and argument position; reference decoders written as explicit automata decide accept/reject, decoded bytes, NUL, write_size; canaries decide 'no byte at or beyond data_size'.",
-        bounds={"quick": "text length 0..16, data_size 1..8", "thorough": "text length 0..20, data_size 1..8"},
-        outside="data_size 9..64 (same loops), texts longer than 20 characters",
+        bounds={"quick": "text length 0..16, data_size 1..8", "thorough": "text length 0..20, data_size 1..8; k_big.c: hex buffer of data_size 255..258, all-hex-digit text of decoded length data_size-1..data_size+1 (unwind 526)"},
+        outside="data_size 9..64 (same loops; the thorough large-variable kernel k_big.c covers 255..258 for hex buffers with well-formed digits only), texts longer than 20 characters",
         assumptions=["a top-level comma inside the text is modelled by the explicit second-argument flag only"],
         level_text="bounded model checking of the real decoders against reference automata"),
     "C06": dict(
@@ -93,9 +93,10 @@ META2 = {
                     "scrambled, and the real WRITE parser (parse_write_args) must accept that text and restore every value. snprintf is the witness-style model validated against libc. "
                     "r_args.c (transport leg): a WRITE line's argument bytes - anything but LF, '?' and '=' included - reach the argument parser / write handler unchanged, as a WRITE, answered by a result code alone.",
         bounds={"quick": "every bit pattern of 8/16/32-bit signed, unsigned and hex variables; all byte-buffer contents and all strings (any non-NUL byte) for data_size 1..8; homogeneous pairs at 8 bit; "
-                         "command-buffer capacity symbolic from 6 bytes up to 16 / 22 (a response that does not fit must be refused, never cut and then accepted back)",
+                         "command-buffer capacity symbolic from 6 bytes up to 16 / 22 (a response that does not fit must be refused, never cut and then accepted back); "
+                         "k_big.c (WRITE leg only): hex buffer of data_size 255..258, every text of hex digits with decoded length data_size-1..data_size+1, unwind 526",
                 "thorough": "additionally all 25 ordered type pairs"},
-        outside="data_size 9..64; three or more variables; argument texts longer than 5 (thorough 6) bytes at line level (the kernels take up to 22 / 40)",
+        outside="data_size 9..64 (and the READ formatter / strings / the full round trip above 8 bytes: k_big.c covers the hex WRITE leg at 255..258 only); three or more variables; argument texts longer than 5 (thorough 6) bytes at line level (the kernels take up to 22 / 40)",
         assumptions=["snprintf model (k_snprintf validation)", "strings are NUL-terminated inside data_size (length < data_size, the property's domain)"],
         level_text="bounded model checking over the complete value range of each listed type/width"),
     "C08": dict(
